@@ -14,6 +14,8 @@ from vf import refworker as rw
 from vf.gen import prog as gp
 from vf.pool import ALL_VERSIONS, REPO
 from vf.props.c10 import xdis_frame
+from vf.props.progbase import ProgProp
+from vf.gen import asm as ga
 from vf.run import Result
 
 FORMATS = ["classic", "bytes", "extended", "extended-bytes", "xasm", "header"]
@@ -54,14 +56,23 @@ class C12:
     budgets = {"quick": {"shards": 14, "examples": 22, "seconds": 85},
                "thorough": {"shards": 16, "examples": 700, "seconds": 1500}}
 
+    pp = ProgProp()
+
     def strategy(self, ctx):
         max_size = 20000 if ctx.tier == "quick" else 100000
 
         @st.composite
         def case(draw):
             v = draw(st.sampled_from(ALL_VERSIONS))
-            k = draw(st.sampled_from(["prog", "prog", "stdlib"]))
+            k = draw(st.sampled_from(["prog", "prog", "stdlib", "asm"]))
             sub = draw(st.integers(0, 3)) == 0
+            if k == "asm" and draw(st.integers(0, 2)) == 0:
+                # the SAME code bytes listed as two versions, one after the other in this process (3.9 -> 3.10 changes
+                # what a jump operand means): a listing must not depend on what was listed before
+                v1, v2 = draw(st.sampled_from([("3.9", "3.10"), ("3.10", "3.9"), ("3.6", "3.7"), ("3.7", "3.8"), ("3.8", "3.9")]))
+                return {"k": "asmpair", "v": v1, "v2": v2, "items": draw(ga.asm_cases(v1, self.pp.tables(ctx, v1))), "subprocess": False}
+            if k == "asm":
+                return {"k": "asm", "v": v, "items": draw(ga.asm_cases(v, self.pp.tables(ctx, v))), "subprocess": False}
             if k == "prog":
                 return {"k": "prog", "v": v, "src": draw(gp.programs(v, size=draw(st.integers(2, 4)))), "subprocess": sub}
             return {"k": "stdlib", "v": v, "path": draw(st.sampled_from(pd.stdlib_files(ctx, v, max_size))), "subprocess": sub}
@@ -74,6 +85,34 @@ class C12:
             yield {"k": "corpus", "path": p, "subprocess": False}
 
     def judge(self, case, ctx):
+        if case.get("k") == "asmpair":
+            return self.judge_pair(case, ctx)
+        return self.judge_one(case, ctx)
+
+    def judge_pair(self, case, ctx):
+        v1, v2 = case.get("v"), case.get("v2")
+        if v1 not in ALL_VERSIONS or v2 not in ALL_VERSIONS:
+            r = Result()
+            r.reject = "malformed-case"
+            return r
+        tab1 = self.pp.tables(ctx, v1)
+        for it in case.get("items", []):
+            if not isinstance(it, dict) or it.get("op") not in tab1.opmap:
+                r = Result()
+                r.reject = "malformed-case"
+                return r
+        co_code, _, _ = ga.assemble(tab1, case["items"])
+        first = self.judge_one({"k": "rawcode", "v": v1, "code": rw.hx(co_code), "subprocess": False}, ctx)
+        second = self.judge_one({"k": "rawcode", "v": v2, "code": rw.hx(co_code), "subprocess": False}, ctx)
+        if first.reject or second.reject:
+            first.reject = first.reject or second.reject
+            return first
+        second.failures = first.failures + second.failures
+        second.classes = [c for c in second.classes if not c.startswith("version:")] + ["pair:%s-then-%s" % (v1, v2)]
+        second.evals += first.evals
+        return second
+
+    def judge_one(self, case, ctx):
         res = Result()
         k = case.get("k")
         x = rw.xd()
@@ -83,10 +122,18 @@ class C12:
                 res.reject = "corpus-file-too-big-for-tier"
                 return res
             label = case["path"]
-        elif k in ("prog", "stdlib") and case.get("v") in ALL_VERSIONS:
+        elif k in ("prog", "stdlib", "asm", "rawcode") and case.get("v") in ALL_VERSIONS:
             v = case["v"]
-            if k == "prog":
-                ref = ctx.pool.ref(v).call("compile", src=case["src"], dis=False)
+            if k == "rawcode":
+                tab = self.pp.tables(ctx, v)
+                ref = ctx.pool.ref(v).call("mkcode", fields=ga.code_fields(tab, rw.unhx(case["code"]), rw.hx), dis=True)
+                if "reject" not in ref and "referr" in ref["dis"][0]:
+                    ref = {"reject": "reference-dis-cannot-render"}
+                k = "asm"
+            elif k == "prog":
+                ref = ctx.pool.ref(v).call("compile", src=case["src"], dis=True, max_code=2400)
+            elif k == "asm":
+                ref = self.pp.reference(case, ctx)
             else:
                 ref = ctx.pool.ref(v).call("compile_file", path=case["path"], dis=False)
             if "reject" in ref:
@@ -95,7 +142,7 @@ class C12:
             path = os.path.join(ctx.scratch, "l.pyc")
             with open(path, "wb") as f:
                 f.write(rw.unhx(ref["header"]) + rw.unhx(ref["payload"]))
-            label = "%s:%s" % (v, case.get("path", "generated"))
+            label = "%s:%s" % (v, case.get("path", "assembled" if k == "asm" else "generated"))
         else:
             res.reject = "malformed-case"
             return res
@@ -115,7 +162,9 @@ class C12:
             res.reject = "operand-text-with-raw-line-break"
             return res
         texts = {}
-        for fmt in FORMATS:
+        # assembled instruction sequences are well-formed code objects but not stack-valid programs: the
+        # stack-simulating extended formats (and xasm) are only exercised on compiler output
+        for fmt in (FORMATS if k != "asm" else ["classic", "bytes", "header"]):
             out = io.StringIO()
             cap_out, cap_err = io.StringIO(), io.StringIO()
             try:
@@ -131,13 +180,14 @@ class C12:
                 res.fail("C12|%s|stdout-noise" % fmt, "%s -F %s wrote to sys.stdout: %r" % (label, fmt, cap_out.getvalue()[:200]))
         njt = sum(1 for c in d["dis"] for i in c["instrs"] if i["j"])
         res.nontrivial = len(d["dis"]) >= 2 and njt >= 1
-        res.nt_keys = [[label if k != "prog" else case["src"], f] for f in texts] if res.nontrivial else []
+        res.nt_keys = [[label if k not in ("prog", "asm") else (case.get("src") or case.get("items")), f] for f in texts] if res.nontrivial else []
         res.evals = len(FORMATS)
         res.classes = ["version:" + vs, "source:" + k]
         res.sample = {"file": label, "version": vs, "code_objects": len(d["dis"]), "formats_ok": sorted(texts)}
+        refdis = ref.get("dis") if k in ("prog", "asm") else None
         for fmt in ("classic", "bytes"):
             if fmt in texts:
-                self.faithful(label, vs, fmt, texts[fmt], d, res)
+                self.faithful(label, vs, fmt, texts[fmt], d, res, refdis)
         if case.get("subprocess") and "classic" in texts:
             env = dict(os.environ)
             env["PYTHONPATH"] = REPO
@@ -155,7 +205,7 @@ class C12:
                     label, k2, a[k2:k2 + 1], b[k2:k2 + 1]))
         return res
 
-    def faithful(self, label, vs, fmt, text, d, res):
+    def faithful(self, label, vs, fmt, text, d, res, refdis=None):
         head, blocks = split_blocks(text)
         streams = []
         for c in d["dis"]:
@@ -209,6 +259,15 @@ class C12:
                 problems = self.rows_vs_stream(rows, streams[si], fmt, set_lineno)
                 if problems is None:
                     unmatched.remove(si)
+                    # the marks against the producing CPython's own dis (when it exists for this file)
+                    if refdis is not None and si < len(refdis) and "instrs" in refdis[si]:
+                        rj = dict((r["o"], r["j"]) for r in refdis[si]["instrs"])
+                        for m in rows:
+                            o = int(m.group(4))
+                            if o in rj and bool(m.group(3)) != rj[o]:
+                                res.fail(sig + "|jump-mark-vs-cpython", "%s: offset %d %s: listing %s '>>' but CPython's dis says is_jump_target=%s" % (
+                                    label, o, m.group(6), "shows" if m.group(3) else "has no", rj[o]))
+                                return
                     break
             if problems is not None:
                 kind, o, n, msg = problems
